@@ -8,6 +8,11 @@
               `assembler.remove_expired(timestamp)` then, for the received frame,
               process_ieee802154 -> process_sixlowpan                          lpl_poll, lpl_run
 
+   (Interface::poll = poll_maintenance, i.e. the same remove_expired once, followed by one
+   socket_ingress per queued frame at the same timestamp: remove_expired is idempotent at a fixed
+   timestamp and never frees a slot created at that timestamp, so a poll that finds n frames is n
+   [lpl_poll]s with equal times.)
+
    A received frame is an [lpl_arrival]: the time of the poll that finds it, the link-layer
    addresses of its MAC header and the octets behind the MAC header.  `check!(..)` / `?` failures
    inside process_sixlowpan drop the frame (result None, reassembly state kept).
